@@ -234,6 +234,13 @@ class Runner:
         rf['note'] = 'minimised with %d fresh-process executions (predicate: same race signature)' % tries[0]
         json.dump(rf, open(path, 'w'), indent=1)
 
+def site_summary(hit):
+    by = {}
+    for s in hit:
+        f = s.rsplit(':', 1)[0]
+        by[f] = by.get(f, 0) + 1
+    return dict(sorted(by.items()))
+
 def check(prop, tier):
     if prop not in PROPS:
         die(2, 'verifctl: property %s has no check (see MANIFEST.json not_applicable)' % prop)
@@ -264,6 +271,7 @@ def _check(R):
     samples = []
     rechecks = 0
     sites_hit = sites_total = 0
+    hit_sites = set()
     for r in results:
         for k, v in r['stats']['counters'].items():
             counters[k] = counters.get(k, 0) + v
@@ -278,7 +286,7 @@ def _check(R):
         if len(samples) < 3:
             samples.extend((r['stats'].get('samples') or [])[:1])
         rechecks += r['stats'].get('determinism_rechecks', 0)
-        sites_hit = max(sites_hit, r.get('sites_hit', 0)); sites_total = r.get('sites_total', 0)
+        hit_sites.update(r.get('hit_sites') or []); sites_total = r.get('sites_total', 0)
 
     capped = inconcl.get('cap', 0)
     if worlds and capped > worlds * 0.01:
@@ -352,7 +360,8 @@ def _check(R):
             'counters': counters,
             'sim_counters': simc,
             'distinct_interleavings': len(inter),
-            'yield_sites_hit': sites_hit, 'yield_sites_total': sites_total,
+            'yield_sites_hit': len(hit_sites), 'yield_sites_total': sites_total,
+            'yield_sites_hit_by_file': site_summary(hit_sites),
             'inconclusive': inconcl,
             'determinism_rechecks': rechecks,
             'real_components': ['mux (root package)', 'internal/tree', 'internal/syntax', 'internal/trace', 'types', 'header'],
